@@ -32,7 +32,16 @@ RULE = ("Seeds of 16..64 bytes (every length in the quick tier's sweep at least 
         "the 78-byte header with every field at its special values independently of the others (depth 0/1/255 x parent "
         "fingerprint 00000000/ffffffff/random x child number 0/2^31-1/2^31/2^32-1 x chain code 00..00/ff..ff/random x "
         "key 1/n-1/random), written by an independent Base58Check encoder: parse / raw_parse(network) -> print under all "
-        "20 prefixes, and child derivation (public, private, hardened) and blind_xpub starting from the PARSED keys.")
+        "20 prefixes, and child derivation (public, private, hardened) and blind_xpub starting from the PARSED keys; "
+        "the entry points most callers bypass, each with its optional arguments passed positionally, by keyword and "
+        "omitted one by one: from_mnemonic / generate / from_shares (12..24-word sentences from an independent BIP39 "
+        "encoder, PBKDF2 from hashlib; secure_mnemonic and ShareSet.recover_mnemonic replaced by recorders), from_seed, "
+        "both constructors called directly, the ten get_* address / private-key helpers and get_private_key (argument "
+        "plumbing with a recording self; end to end against reference base58 / bech32 / bech32m encoders on all four "
+        "networks), generate_p2wsh_key_record, repr / sec / hash160 / address pass-throughs, raw_parse on a stream holding "
+        "two keys, secure_secret_path(); paths with exactly one component (not) hardened at every position; children, "
+        "grandchildren, traversals and parsed twins re-observed after later derivations and after in-place edits of their "
+        "source, of a sibling and of a parsed copy; get_unhardened_child_path incl. bases that end inside a component.")
 TRUSTED = ["hashlib/hmac (HMAC-SHA512, SHA256, RIPEMD160): universally quantified functions in the theorems",
            "group laws of secp256k1 (record scalar_laws of Proofs/GroupHyp.v): explicit hypothesis of the "
            "derivation theorems, discharged on the toy curve"]
@@ -1362,7 +1371,623 @@ def p_xkey_header_derive(hdr, secret, vi, i, hard):
     return None
 
 
-PROPS = {"xkey_header": p_xkey_header, "xkey_header_derive": p_xkey_header_derive,
+# ---- entry points most callers bypass, defaults, results re-observed after later calls (audit of round 3)
+# References written here: BIP39 seed (hashlib.pbkdf2_hmac), base58 / bech32 / bech32m address encodings, the
+# BIP86 output key, BIP44 path layout.  The BIP39 word list is read as DATA from the tree under test (like the
+# version tables); the four all-00 / all-ff / 7f.. / 80.. test-vector sentences are written down from memory and
+# compared with what the encoder below makes of the list when the module is loaded.
+
+import os as _os
+
+_BECH = "qpzry9x8gf2tvdw0s3jn54khce6mua7l"
+R_ADDR = {"mainnet": (0x00, 0x05, "bc"), "testnet": (0x6F, 0xC4, "tb"), "signet": (0x6F, 0xC4, "tb"),
+          "regtest": (0x6F, 0xC4, "bcrt")}
+R_DEFAULT_P2WSH = {"mainnet": "m/48h/0h/0h/2h", "testnet": "m/48h/1h/0h/2h", "signet": "m/48h/1h/0h/2h",
+                   "regtest": "m/48h/1h/0h/2h"}
+
+
+def _bech_polymod(values):
+    gen = [0x3B6A57B2, 0x26508E6D, 0x1EA119FA, 0x3D4233DD, 0x2A1462B3]
+    chk = 1
+    for v in values:
+        b = chk >> 25
+        chk = (chk & 0x1FFFFFF) << 5 ^ v
+        for i in range(5):
+            chk ^= gen[i] if (b >> i) & 1 else 0
+    return chk
+
+
+def r_segwit_addr(hrp, witver, prog):
+    data, acc, bits = [witver], 0, 0
+    for byte in prog:
+        acc, bits = (acc << 8) | byte, bits + 8
+        while bits >= 5:
+            bits -= 5
+            data.append((acc >> bits) & 31)
+    if bits:
+        data.append((acc << (5 - bits)) & 31)
+    const = 1 if witver == 0 else 0x2BC830A3
+    exp = [ord(c) >> 5 for c in hrp] + [0] + [ord(c) & 31 for c in hrp]
+    pm = _bech_polymod(exp + data + [0] * 6) ^ const
+    return hrp + "1" + "".join(_BECH[d] for d in data + [(pm >> 5 * (5 - i)) & 31 for i in range(6)])
+
+
+def r_address(purpose, pt, netname):
+    """address of the BIP44 purpose for the public point pt (44' p2pkh, 49' p2sh-p2wpkh, 84' p2wpkh, 86' p2tr)"""
+    p2pkh, p2sh, hrp = R_ADDR[netname]
+    h = r_hash160(r_serP(pt))
+    if purpose == "44'":
+        return r_b58check(bytes([p2pkh]) + h)
+    if purpose == "49'":
+        return r_b58check(bytes([p2sh]) + r_hash160(b"\x00\x14" + h))
+    if purpose == "84'":
+        return r_segwit_addr(hrp, 0, h)
+    x32 = pt[0].to_bytes(32, "big")
+    tag = hashlib.sha256(b"TapTweak").digest()
+    t = int.from_bytes(hashlib.sha256(tag + tag + x32).digest(), "big")
+    even = (pt[0], pt[1] if pt[1] % 2 == 0 else _P - pt[1])
+    q = _aff(_jadd(_jmul(t, (_GX, _GY, 1)), (even[0], even[1], 1)))
+    return r_segwit_addr(hrp, 1, q[0].to_bytes(32, "big"))
+
+
+def _bip39_words():
+    with open(_os.path.join(_os.path.dirname(hd.__file__), "bip39_words.txt")) as f:
+        return f.read().split()
+
+
+def r_mnemonic(entropy):
+    w = _bip39_words()
+    cs = len(entropy) * 8 // 32
+    n = (int.from_bytes(entropy, "big") << cs) | (hashlib.sha256(entropy).digest()[0] >> (8 - cs))
+    nw = (len(entropy) * 8 + cs) // 11
+    return " ".join(w[(n >> (11 * (nw - 1 - i))) & 2047] for i in range(nw))
+
+
+def r_bip39_seed(mnemonic, password):
+    return hashlib.pbkdf2_hmac("sha512", mnemonic.encode(), b"mnemonic" + password, 2048)
+
+
+_BIP39_MEMORY = {b"\x00" * 16: "abandon " * 11 + "about", b"\xff" * 16: "zoo " * 11 + "wrong",
+                 b"\x7f" * 16: "legal winner thank year wave sausage worth useful legal winner thank yellow",
+                 b"\x80" * 16: "letter advice cage absurd amount doctor acoustic avoid letter advice cage above"}
+
+
+def _bip39_selfcheck():
+    try:
+        return sum(1 for e, s in _BIP39_MEMORY.items() if r_mnemonic(e) == s)
+    except Exception:
+        return -1
+
+
+BIP39_SENTENCES_OK = _bip39_selfcheck()
+
+
+def _ver_pair(netname, vi):
+    """(priv_version argument, pub_version argument, expected priv prefix, expected pub prefix); vi < 0: None"""
+    base = 0 if netname == "mainnet" else 5
+    if vi < 0:
+        return None, None, R_PRV[base], R_PUB[base]
+    return R_PRV[base + vi % 5], R_PUB[base + vi % 5], R_PRV[base + vi % 5], R_PUB[base + vi % 5]
+
+
+def _chk_priv_node(k, node, netname, pv, pb, what):
+    rk, rc, rd, rfp, ri = node
+    got = (k.private_key.secret, k.chain_code, k.depth, k.parent_fingerprint, k.child_number, k.network, k.priv_version,
+           k.pub.pub_version, k.pub.network)
+    want = (rk, rc, rd, rfp, ri, netname, pv, pb, netname)
+    if got != want:
+        return f"{what}: key fields {got}, the reference gives {want}"
+    if k.xprv() != r_xprv(pv, node) or k.xpub() != r_xpub(pb, node) or k.pub.xpub() != r_xpub(pb, node):
+        return f"{what}: xprv()/xpub() are {k.xprv()} / {k.xpub()}, the reference gives {r_xprv(pv, node)} / {r_xpub(pb, node)}"
+    return None
+
+
+def p_from_mnemonic(entropy, password, idxs, style, net, vi, mode):
+    """HDPrivateKey.from_mnemonic: BIP39 seed (PBKDF2-HMAC-SHA512, 2048 rounds, salt 'mnemonic' + password) -> BIP32
+    master -> the key at `path`, on `network`, under the given / default version prefixes; mode selects which
+    arguments are passed (0: the sentence alone -> password b'', path 'm', mainnet, defaults; 1: + password
+    positionally; 2: path=; 3: network=; 4: all six positionally; 5: all by keyword); mode + 8: every word cut to
+    its first four letters (the code normalises them before the KDF)"""
+    full = r_mnemonic(entropy)
+    mn = " ".join(w[:4] for w in full.split()) if mode & 8 else full
+    m = mode & 7
+    name = NETS[net]
+    path = _path_text(idxs, style)
+    apv, apb, pv, pb = _ver_pair(name, vi)
+    if m == 0:
+        k, use = HDPrivateKey.from_mnemonic(mn), (b"", [], "mainnet", -1)
+    elif m == 1:
+        k, use = HDPrivateKey.from_mnemonic(mn, password), (password, [], "mainnet", -1)
+    elif m == 2:
+        k, use = HDPrivateKey.from_mnemonic(mn, path=path), (b"", idxs, "mainnet", -1)
+    elif m == 3:
+        k, use = HDPrivateKey.from_mnemonic(mn, network=name), (b"", [], name, -1)
+    elif m == 4:
+        k, use = HDPrivateKey.from_mnemonic(mn, password, path, name, apv, apb), (password, idxs, name, vi)
+    else:
+        k, use = HDPrivateKey.from_mnemonic(mnemonic=mn, password=password, path=path, network=name, priv_version=apv,
+                                            pub_version=apb), (password, idxs, name, vi)
+    pw, ii, nm, v = use
+    _, _, pv, pb = _ver_pair(nm, v)
+    node = r_derive(r_bip39_seed(full, pw), ii)[-1]
+    return _chk_priv_node(k, node, nm, pv, pb, f"from_mnemonic (argument mode {mode}) of {mn!r}")
+
+
+def p_generate(entropy, password, extra, net, vi, mode):
+    """HDPrivateKey.generate with secure_mnemonic replaced by a recorder that returns a given sentence: returns
+    (that sentence, the key from_mnemonic makes of it with password / network / versions); mode 0 = no arguments"""
+    mn = r_mnemonic(entropy)
+    seen = []
+
+    def fake(*a, **kw):
+        seen.append((a, kw))
+        return mn
+
+    name = NETS[net]
+    apv, apb, pv, pb = _ver_pair(name, vi)
+    old = hd.secure_mnemonic
+    hd.secure_mnemonic = fake
+    try:
+        if mode == 0:
+            got_mn, k = HDPrivateKey.generate()
+            pw, nm, want_extra = b"", "mainnet", 0
+            _, _, pv, pb = _ver_pair("mainnet", -1)
+        elif mode == 1:
+            got_mn, k = HDPrivateKey.generate(password, extra, name, apv, apb)
+            pw, nm, want_extra = password, name, extra
+        else:
+            got_mn, k = HDPrivateKey.generate(pub_version=apb, priv_version=apv, network=name, extra_entropy=extra,
+                                              password=password)
+            pw, nm, want_extra = password, name, extra
+    finally:
+        hd.secure_mnemonic = old
+    if got_mn != mn:
+        return f"generate returned the sentence {got_mn!r}, secure_mnemonic gave {mn!r}"
+    if len(seen) != 1 or (seen[0][1].get("extra_entropy", seen[0][0][1] if len(seen[0][0]) > 1 else None) != want_extra):
+        return f"generate called secure_mnemonic with {seen}, extra_entropy given was {want_extra}"
+    node = r_derive(r_bip39_seed(mn, pw), [])[-1]
+    return _chk_priv_node(k, node, nm, pv, pb, f"generate (argument mode {mode})")
+
+
+def p_from_shares(entropy, passphrase, password, idxs, style, net, mode):
+    """HDPrivateKey.from_shares with ShareSet.recover_mnemonic replaced by a recorder returning a given sentence:
+    the shares and the passphrase go to the recovery, password / path / network to from_mnemonic (never mixed up);
+    mode 0: shares alone; 1: all positionally; 2: all by keyword; 3: password= alone; 4: passphrase positionally
+    alone; 5: path= and network= alone"""
+    mn = r_mnemonic(entropy)
+    shares = ["share %d of the audit" % i for i in range(1 + len(passphrase) % 3)]
+    seen = []
+
+    class FakeShareSet:
+        @staticmethod
+        def recover_mnemonic(*a, **kw):
+            seen.append((a, kw))
+            return mn
+
+    name = NETS[net]
+    path = _path_text(idxs, style)
+    old = hd.ShareSet
+    hd.ShareSet = FakeShareSet
+    try:
+        if mode == 0:
+            k, use = HDPrivateKey.from_shares(shares), (b"", b"", [], "mainnet")
+        elif mode == 1:
+            k, use = HDPrivateKey.from_shares(shares, passphrase, password, path, name), (passphrase, password, idxs, name)
+        elif mode == 2:
+            k, use = HDPrivateKey.from_shares(network=name, path=path, password=password, passphrase=passphrase,
+                                              share_mnemonics=shares), (passphrase, password, idxs, name)
+        elif mode == 3:
+            k, use = HDPrivateKey.from_shares(shares, password=password), (b"", password, [], "mainnet")
+        elif mode == 4:
+            k, use = HDPrivateKey.from_shares(shares, passphrase), (passphrase, b"", [], "mainnet")
+        else:
+            k, use = HDPrivateKey.from_shares(shares, path=path, network=name), (b"", b"", idxs, name)
+    finally:
+        hd.ShareSet = old
+    pp, pw, ii, nm = use
+    if len(seen) != 1:
+        return f"from_shares called recover_mnemonic {len(seen)} times"
+    a, kw = seen[0]
+    got_shares = kw.get("share_mnemonics", a[0] if a else None)
+    got_pp = kw.get("passphrase", a[1] if len(a) > 1 else b"")
+    if got_shares != shares or got_pp != pp:
+        return f"from_shares (argument mode {mode}) recovers with shares {got_shares!r} and passphrase {got_pp!r}; given were {shares!r} and {pp!r}"
+    _, _, pv, pb = _ver_pair(nm, -1)
+    node = r_derive(r_bip39_seed(mn, pw), ii)[-1]
+    return _chk_priv_node(k, node, nm, pv, pb, f"from_shares (argument mode {mode}; password {pw!r}, path {_path_text(ii, style)!r}, {nm})")
+
+
+def p_from_seed_defaults(seed, net, vi):
+    """from_seed(seed) / (seed, network) / (seed, network, priv_version alone) / (seed, network, pub_version alone) /
+    both: each default resolved on its own (a prefix given on one side leaves the other at the network's default)"""
+    name = NETS[net]
+    apv, apb, pv, pb = _ver_pair(name, max(vi, 0))
+    _, _, dpv, dpb = _ver_pair(name, -1)
+    node = r_derive(seed, [])[-1]
+    for what, k, nm, wpv, wpb in (
+            ("from_seed(seed)", HDPrivateKey.from_seed(seed), "mainnet", R_PRV[0], R_PUB[0]),
+            ("from_seed(seed, %r)" % name, HDPrivateKey.from_seed(seed, name), name, dpv, dpb),
+            ("from_seed(seed, network=%r, priv_version=%s)" % (name, pv.hex()),
+             HDPrivateKey.from_seed(seed, network=name, priv_version=apv), name, pv, dpb),
+            ("from_seed(seed, network=%r, pub_version=%s)" % (name, pb.hex()),
+             HDPrivateKey.from_seed(seed, network=name, pub_version=apb), name, dpv, pb),
+            ("from_seed(seed, %r, %s, %s)" % (name, pv.hex(), pb.hex()), HDPrivateKey.from_seed(seed, name, apv, apb), name, pv, pb)):
+        bad = _chk_priv_node(k, node, nm, wpv, wpb, what)
+        if bad:
+            return bad
+    return None
+
+
+def p_ctor_defaults(secret, cc, net, vi, depth, pfp, num):
+    """the two constructors called directly, with and without their optional arguments (depth 0, parent fingerprint
+    00000000, child number 0, mainnet, version None -> the NETWORK's default, resolved separately on each side);
+    repr(), .pub, sec / hash160 / fingerprint and the four address pass-throughs equal the reference for the
+    key's own network; ONE PrivateKey object serves all the keys and the first key is asked again at the end"""
+    name = NETS[net]
+    apv, apb, pv, pb = _ver_pair(name, max(vi, 0))
+    _, _, dpv, dpb = _ver_pair(name, -1)
+    pk = PrivateKey(secret)
+    pt = r_point(secret)
+    sec = r_serP(pt)
+    root, node = (secret, cc, 0, _Z4, 0), (secret, cc, depth, pfp, num)
+    a = HDPrivateKey(pk, cc)
+    keys = [("HDPrivateKey(key, chain_code)", a, root, "mainnet", R_PRV[0], R_PUB[0]),
+            ("HDPrivateKey(key, chain_code, network=%r)" % name, HDPrivateKey(pk, cc, network=name), root, name, dpv, dpb),
+            ("HDPrivateKey(.., priv_version=%s)" % pv.hex(), HDPrivateKey(pk, cc, depth, pfp, num, name, priv_version=apv),
+             node, name, pv, dpb),
+            ("HDPrivateKey(.., pub_version=%s)" % pb.hex(), HDPrivateKey(pk, cc, depth, pfp, num, name, pub_version=apb),
+             node, name, dpv, pb),
+            ("HDPrivateKey(.., positionally)", HDPrivateKey(pk, cc, depth, pfp, num, name, apv, apb), node, name, pv, pb)]
+    for what, k, nd, nm, wpv, wpb in keys + keys[:1]:
+        bad = _chk_priv_node(k, nd, nm, wpv, wpb, what)
+        if bad:
+            return bad
+        if repr(k) != r_xprv(wpv, nd) or repr(k.pub) != r_xpub(wpb, nd):
+            return f"{what}: repr() is not the xprv / xpub string"
+        if k.sec() != sec or k.hash160() != r_hash160(sec) or k.fingerprint() != r_hash160(sec)[:4]:
+            return f"{what}: sec()/hash160()/fingerprint() differ from the reference"
+    pubs = [("HDPublicKey(point, chain_code, depth, fp, number)", HDPublicKey(S256Point(*pt), cc, depth, pfp, num), "mainnet", R_PUB[0]),
+            ("HDPublicKey(.., network=%r)" % name, HDPublicKey(S256Point(*pt), cc, depth, pfp, num, network=name), name, dpb),
+            ("HDPublicKey(.., pub_version=%s)" % pb.hex(), HDPublicKey(S256Point(*pt), cc, depth, pfp, num, pub_version=pb),
+             "mainnet", pb),
+            ("HDPublicKey(.., %r, %s)" % (name, pb.hex()), HDPublicKey(S256Point(*pt), cc, depth, pfp, num, name, pb), name, pb)]
+    for what, q, nm, wpb in pubs:
+        if (q.network, q.pub_version, q.xpub(), repr(q)) != (nm, wpb, r_xpub(wpb, node), r_xpub(wpb, node)):
+            return f"{what}: network / version / xpub are {(q.network, q.pub_version, q.xpub())}, expected {(nm, wpb, r_xpub(wpb, node))}"
+        if q.sec() != sec or q.hash160() != r_hash160(sec) or q.fingerprint() != r_hash160(sec)[:4]:
+            return f"{what}: sec()/hash160()/fingerprint() differ from the reference"
+    for what, k, nm in ((keys[4][0], keys[4][1], name), (keys[0][0], a, "mainnet"), (pubs[1][0], pubs[1][1], name)):
+        got = (k.address(), k.p2sh_p2wpkh_address(), k.p2wpkh_address(), k.p2tr_address())
+        want = tuple(r_address(p, pt, nm) for p in ("44'", "49'", "84'", "86'"))
+        if got != want:
+            return f"{what}: address pass-throughs give {got}, the reference for {nm} gives {want}"
+        h = r_hash160(sec)
+        got = (k.p2pkh_script().raw_serialize(), k.p2wpkh_script().raw_serialize())
+        if got != (b"\x76\xa9\x14" + h + b"\x88\xac", b"\x00\x14" + h):
+            return f"{what}: p2pkh_script() / p2wpkh_script() pass-throughs serialise as {got[0].hex()} / {got[1].hex()}"
+        try:
+            got = k.p2sh_p2wpkh_script().raw_serialize()
+        except Exception as e:  # noqa
+            return f"{what}: p2sh_p2wpkh_script() raised {type(e).__name__}: {e}"
+        if got != b"\xa9\x14" + r_hash160(b"\x00\x14" + h) + b"\x87":
+            return f"{what}: p2sh_p2wpkh_script() serialises as {got.hex()}, expected a914 hash160(0014 hash160(sec)) 87"
+    return None
+
+
+_HELPERS = [("get_p2pkh_receiving_address", "44'", True), ("get_p2pkh_change_address", "44'", False),
+            ("get_p2sh_p2wpkh_receiving_address", "49'", True), ("get_p2sh_p2wpkh_change_address", "49'", False),
+            ("get_p2wpkh_receiving_address", "84'", True), ("get_p2wpkh_change_address", "84'", False),
+            ("get_p2tr_receiving_address", "86'", True), ("get_p2tr_change_address", "86'", False),
+            ("get_p2tr_receiving_privkey", "86'", True), ("get_p2tr_change_privkey", "86'", False)]
+
+
+def _call_helper(f, mode, account, addr):
+    """mode 0: no arguments (account 0, address 0); 1: account_num= alone; 2: address_num= alone; 3: both
+    positionally; 4: both by keyword -> (result, account expected, address expected)"""
+    if mode == 0:
+        return f(), 0, 0
+    if mode == 1:
+        return f(account_num=account), account, 0
+    if mode == 2:
+        return f(address_num=addr), 0, addr
+    if mode == 3:
+        return f(account, addr), account, addr
+    return f(address_num=addr, account_num=account), account, addr
+
+
+class _HelperRec:
+    """stands for self inside the ten get_* helpers and inside _get_address: records what reaches the next layer"""
+
+    def __init__(self, network):
+        self.network = network
+        self.calls = []
+
+    def _get_address(self, purpose, account_num=0, is_external=True, address_num=0):
+        self.calls.append(("_get_address", purpose, account_num, is_external, address_num))
+        return self
+
+    def get_private_key(self, purpose, account_num=0, is_external=True, address_num=0):
+        self.calls.append(("get_private_key", purpose, account_num, is_external, address_num))
+        return self
+
+
+def p_helper_plumbing(net, mode, account, addr):
+    """no key involved: each of the ten get_* helpers hands exactly (its purpose, the account, external / change,
+    the address number) to the next layer, in every way of passing / omitting the two optional arguments; and
+    get_private_key with its optional arguments omitted one by one writes the BIP44 path m/purpose/coin'/account'/
+    chain/address with account 0, external chain, address 0 and coin 0' on mainnet, 1' elsewhere"""
+    name = NETS[net]
+    for fn, purpose, ext in _HELPERS:
+        rec = _HelperRec(name)
+        res, acc, ad = _call_helper(lambda *a, **kw: getattr(HDPrivateKey, fn)(rec, *a, **kw), mode, account, addr)
+        layer = "get_private_key" if fn.endswith("privkey") else "_get_address"
+        if rec.calls != [(layer, purpose, acc, ext, ad)] or res is not rec:
+            return f"{fn} (argument mode {mode}, account {account}, address {addr}) calls {rec.calls}, expected {[(layer, purpose, acc, ext, ad)]}"
+    coin = "0'" if name == "mainnet" else "1'"
+    for purpose in ("44'", "49'", "84'", "86'", "48h"):
+        for what, kw, acc, ext, ad in (("no optional argument", {}, 0, True, 0), ("account_num alone", {"account_num": account}, account, True, 0),
+                                       ("is_external=False alone", {"is_external": False}, 0, False, 0),
+                                       ("address_num alone", {"address_num": addr}, 0, True, addr),
+                                       ("all three", {"account_num": account, "is_external": False, "address_num": addr}, account, False, addr)):
+            r_ = _PathRec(name)
+            HDPrivateKey.get_private_key(r_, purpose, **kw)
+            want = "m/%s/%s/%d'/%d/%d" % (purpose, coin, acc, 0 if ext else 1, ad)
+            if r_.path != want:
+                return f"get_private_key({purpose!r}, {what}) on {name} traverses {r_.path!r}, BIP44 says {want!r}"
+    r_ = _PathRec(name)
+    HDPrivateKey.get_private_key(r_, "84'", account, False, addr)
+    if r_.path != "m/84'/%s/%d'/1/%d" % (coin, account, addr):
+        return f"get_private_key('84h', {account}, False, {addr}) positionally traverses {r_.path!r}"
+    return None
+
+
+def p_addr_helper(seed, net, which, mode, account, addr):
+    """end to end with a real key: helper number `which` of a master key on `net` returns the address (or private key)
+    of the reference key at m/purpose'/coin'/account'/chain/address, encoded for the key's network by the reference
+    encoders (purpose 44 base58 p2pkh, 49 p2sh-p2wpkh, 84 bech32 v0, 86 bech32m of the BIP86 output key)"""
+    name = NETS[net]
+    fn, purpose, ext = _HELPERS[which]
+    k = HDPrivateKey.from_seed(seed, name)
+    res, acc, ad = _call_helper(getattr(k, fn), mode, account, addr)
+    idxs = [int(purpose[:-1]) + H31, (0 if name == "mainnet" else 1) + H31, acc + H31, 0 if ext else 1, ad]
+    rk = r_derive(seed, idxs)[-1][0]
+    if fn.endswith("privkey"):
+        if res.secret != rk or _sec_or_err(res.point) != r_serP(r_point(rk)):
+            return f"{fn} (argument mode {mode}) on {name} returns the secret {res.secret:x}, the reference key at {_path_text(idxs)} is {rk:x}"
+        return None
+    want = r_address(purpose, r_point(rk), name)
+    if res != want:
+        return f"{fn} (argument mode {mode}) on {name} returns {res}, the reference address at {_path_text(idxs)} is {want}"
+    if mode == 0 and which == 0:
+        for bad in ("45'", "44", "84h", ""):
+            try:
+                out = k._get_address(bad)
+            except ValueError:
+                continue
+            return f"_get_address({bad!r}) returned {out!r}"
+    return None
+
+
+def p_key_record(seed, net, vi, idxs, style, mode):
+    """generate_p2wsh_key_record of a master key: '[' fingerprint '/' path in h notation without 'm/' ']' xpub at that
+    path; mode 0: no arguments (the network's default m/48h/coin h/0h/2h, the key's own public prefix); 1: the path
+    alone; 2: use_slip132_version_byte=True alone (Zpub / Vpub); 3: both positionally; a key that is not a master
+    key (depth, parent fingerprint or child number set) is refused"""
+    name = NETS[net]
+    apv, apb, pv, pb = _ver_pair(name, vi)
+    k = HDPrivateKey.from_seed(seed, name, apv, apb)
+    path = _path_text(idxs, style & 1)
+    slip = bytes.fromhex("02aa7ed3") if name == "mainnet" else bytes.fromhex("02575483")
+    dflt = [48 + H31, (0 if name == "mainnet" else 1) + H31, H31, 2 + H31]
+    if mode == 0:
+        got, ii, ver = k.generate_p2wsh_key_record(), dflt, pb
+    elif mode == 1:
+        got, ii, ver = k.generate_p2wsh_key_record(path), idxs, pb
+    elif mode == 2:
+        got, ii, ver = k.generate_p2wsh_key_record(use_slip132_version_byte=True), dflt, slip
+    else:
+        got, ii, ver = k.generate_p2wsh_key_record(path, True), idxs, slip
+    nodes = r_derive(seed, ii)
+    fp = r_hash160(r_serP(r_point(nodes[0][0])))[:4]
+    want = "[" + fp.hex() + "/" + _path_text(ii, 1)[2:] + "]" + r_xpub(ver, nodes[-1])
+    if got != want:
+        return f"generate_p2wsh_key_record (argument mode {mode}, {name}) = {got}, the reference gives {want}"
+    if _path_text(dflt, 1) != R_DEFAULT_P2WSH[name]:
+        return "reference table"
+    if mode == 0:
+        rk, rc = nodes[0][0], nodes[0][1]
+        for what, kk in (("depth 1", HDPrivateKey(PrivateKey(rk), rc, 1, _Z4, 0, name)),
+                         ("parent fingerprint set", HDPrivateKey(PrivateKey(rk), rc, 0, b"\x00\x00\x00\x01", 0, name)),
+                         ("child number 1", HDPrivateKey(PrivateKey(rk), rc, 0, _Z4, 1, name))):
+            try:
+                out = kk.generate_p2wsh_key_record()
+            except ValueError:
+                continue
+            return f"generate_p2wsh_key_record accepted a key with {what}: {out}"
+        for badp in ("m/48h/x", "48h/0h", "m/2147483648"):
+            try:
+                out = k.generate_p2wsh_key_record(badp)
+            except ValueError:
+                continue
+            return f"generate_p2wsh_key_record accepted the path {badp!r}: {out}"
+    return None
+
+
+def p_results_survive(seed, net, vi, idxs, i1, i2, seed2):
+    """results are re-observed AFTER later calls and after in-place edits of their source (and the source after
+    edits of a result): children / grandchildren / traversals / parsed copies taken from one private key and from
+    its .pub keep printing the reference strings while further children are derived, a parsed twin is edited, a
+    child is edited, the parent and its .pub are edited; two calls never return one object, a child shares neither
+    the PrivateKey object nor the .pub of its parent"""
+    name = NETS[net]
+    apv, apb, pv, pb = _ver_pair(name, vi)
+    k = HDPrivateKey.from_seed(seed, name, apv, apb)
+    for j in idxs:
+        k = k.child(j)
+
+    def nd(extra):
+        return r_derive(seed, idxs + extra)[-1]
+
+    kept = []
+
+    def keep(what, obj, extra, priv):
+        want = r_xprv(pv, nd(extra)) if priv else r_xpub(pb, nd(extra))
+        kept.append((what, obj, want, priv))
+
+    def recheck(when, skip=()):
+        for what, obj, want, priv in kept:
+            if what in skip:
+                continue
+            got = obj.xprv() if priv else obj.xpub()
+            if got != want:
+                return f"{when}: {what} now prints {got}, it was derived as {want}"
+            if priv and obj.xpub() != obj.pub.xpub():
+                return f"{when}: {what}: xpub() and .pub.xpub() differ"
+        return None
+
+    own_prv, own_pub = r_xprv(pv, nd([])), r_xpub(pb, nd([]))
+    P = k.pub
+    c1 = k.child(i1)
+    keep("child i1", c1, [i1], True)
+    pc1 = P.child(i1)
+    keep("public child i1", pc1, [i1], False)
+    bad = recheck("right after derivation")
+    if bad:
+        return bad
+    c2 = k.child(i2)
+    keep("child i2", c2, [i2], True)
+    c1h = k.child(i1 + H31)
+    keep("hardened child i1", c1h, [i1 + H31], True)
+    pc2 = P.child(i2)
+    keep("public child i2", pc2, [i2], False)
+    t = k.traverse("m/%d/%d" % (i1, i2))
+    keep("traverse m/i1/i2", t, [i1, i2], True)
+    g = c1.child(i2)
+    keep("grandchild via child i1", g, [i1, i2], True)
+    pg = pc1.child(i2)
+    keep("public grandchild", pg, [i1, i2], False)
+    pt_ = P.traverse("m/%d/%d" % (i2, i1))
+    keep("public traverse m/i2/i1", pt_, [i2, i1], False)
+    again = k.child(i1)
+    keep("child i1, second call", again, [i1], True)
+    if again is c1 or again.pub is c1.pub or again.private_key is c1.private_key or P.child(i1) is pc1:
+        return "two child(i1) calls returned one object (or objects sharing .pub / .private_key)"
+    if c1.pub is P or c1.private_key is k.private_key or t is g or t.pub is g.pub:
+        return "a child shares .pub / .private_key with its parent"
+    q1, q2 = HDPrivateKey.parse(own_prv), HDPrivateKey.parse(own_prv)
+    Q1, Q2 = HDPublicKey.parse(own_pub), HDPublicKey.parse(own_pub)
+    keep("parsed twin (private)", q2, [], True)
+    keep("parsed twin (public)", Q2, [], False)
+    bad = recheck("after all derivations")
+    if bad:
+        return bad
+    if k.xprv() != own_prv or k.xpub() != own_pub or P.xpub() != own_pub:
+        return "the source key prints differently after its children were derived"
+    k2, c2_ = r_master(seed2)
+    # a parsed copy edited in place: its twin and the original stay
+    for obj in (q1, q1.pub, Q1):
+        obj.chain_code, obj.depth, obj.child_number, obj.parent_fingerprint = c2_, 9, 77, c2_[:4]
+    q1.private_key.secret = k2
+    Q1.point = S256Point(*r_point(k2))
+    bad = recheck("after editing a parsed copy of the source in place")
+    if bad:
+        return bad
+    # a child edited in place: parent, siblings, the grandchild derived before
+    c1.chain_code, c1.depth, c1.child_number, c1.network = c2_, 200, 5, NETS[(net + 1) % 4]
+    c1.pub.chain_code, c1.pub.depth, c1.pub.point = c2_, 200, S256Point(*r_point(k2))
+    c1.private_key.secret = k2
+    pc1.chain_code, pc1.depth, pc1.point = c2_, 201, S256Point(*r_point(k2))
+    skip = ("child i1", "public child i1")
+    bad = recheck("after editing child i1 and public child i1 in place", skip)
+    if bad:
+        return bad
+    if k.xprv() != own_prv or k.xpub() != own_pub or k.child(i1).xprv() != r_xprv(pv, nd([i1])) or \
+            P.child(i1).xpub() != r_xpub(pb, nd([i1])):
+        return "after editing child i1 in place the parent prints / derives differently"
+    # the parent and its .pub edited in place: everything derived before stays
+    k.chain_code, k.depth, k.child_number, k.parent_fingerprint, k.network = c2_, 100, 3, c2_[4:8], NETS[(net + 2) % 4]
+    P.chain_code, P.depth, P.child_number, P.point, P.network = c2_, 100, 3, S256Point(*r_point(k2)), NETS[(net + 2) % 4]
+    k.private_key.secret = k2
+    return recheck("after editing the parent and its .pub in place", skip)
+
+
+def p_raw_parse_stream(raw1, raw2, is_priv, net):
+    """raw_parse reads exactly 78 bytes of a longer stream: two payloads written one after the other parse as the
+    first and then the second key (independent encoder for the expected strings), the stream stands at 78 / 156;
+    the network argument passed positionally, by keyword and omitted"""
+    cls = HDPrivateKey if is_priv else HDPublicKey
+    s = BytesIO(raw1 + raw2 + b"\xee\xee")
+    outs = []
+    for n_, raw in enumerate((raw1, raw2)):
+        if net < 0:
+            k = cls.raw_parse(s)
+        elif n_ == 0:
+            k = cls.raw_parse(s, NETS[net])
+        else:
+            k = cls.raw_parse(s, network=NETS[net])
+        if s.tell() != 78 * (n_ + 1):
+            return f"raw_parse left the stream at {s.tell()} after key {n_ + 1}"
+        got = k.xprv() if is_priv else k.xpub()
+        if got != r_b58check(raw):
+            return f"key {n_ + 1} of the stream prints {got}, written was {r_b58check(raw)}"
+        wnet = "mainnet" if raw[:4] in _R_MAIN else ("testnet" if net < 0 else NETS[net])
+        if k.network != wnet:
+            return f"key {n_ + 1} of the stream has network {k.network!r}, expected {wnet!r}"
+        outs.append((k, raw))
+    for k, raw in outs:
+        if (k.xprv() if is_priv else k.xpub()) != r_b58check(raw):
+            return "the first key prints differently after the second was parsed"
+    return None
+
+
+def p_secure_secret_path_default(draws):
+    """secure_secret_path() without argument: depth 4"""
+    left = list(draws)
+    old_rb = blinding.randbelow
+    blinding.randbelow = lambda n: left.pop(0)
+    try:
+        out = blinding.secure_secret_path()
+    finally:
+        blinding.randbelow = old_rb
+    if out != "m/" + "/".join(str(d) for d in draws[:4]) or len(left) != len(draws) - 4:
+        return f"secure_secret_path() = {out!r} for the draws {draws}"
+    return None
+
+
+def p_unhardened_child_path(base, root):
+    """get_unhardened_child_path(base, root): either None, or a path text p such that the components of base followed
+    by those of p are exactly the components of root and p has no hardened step (read through the real traverse
+    loop with the recording stub); None only if base is not a component prefix of root or a hardened step is left"""
+    base, root = _txt(base), _txt(root)
+    try:
+        p = hd.get_unhardened_child_path(base, root)
+    except ValueError:
+        return f"get_unhardened_child_path({base!r}, {root!r}) raised for a valid root path" if hd.is_valid_bip32_path(root) else None
+    bi, ri = i_path_indexes_priv(base.strip().encode()), i_path_indexes_priv(root.strip().encode())
+    is_prefix = ri[:len(bi)] == bi
+    rest = ri[len(bi):]
+    if p is None:
+        if is_prefix and all(i < H31 for i in rest):
+            return f"get_unhardened_child_path({base!r}, {root!r}) is None, but {_path_text(rest)!r} leads from one to the other"
+        return None
+    if p != "m" and not p.startswith("m/"):
+        return f"get_unhardened_child_path({base!r}, {root!r}) = {p!r}, which is not a path: string prefix instead of component prefix"
+    try:
+        pi = i_path_indexes_pub(p.encode())
+    except Exception:
+        return f"get_unhardened_child_path({base!r}, {root!r}) = {p!r}, which is not an unhardened path"
+    if bi + pi != ri:
+        return f"get_unhardened_child_path({base!r}, {root!r}) = {p!r}: {bi} + {pi} is not {ri}"
+    return None
+
+
+
+PROPS = {"from_mnemonic": p_from_mnemonic, "generate": p_generate, "from_shares": p_from_shares,
+         "from_seed_defaults": p_from_seed_defaults, "ctor_defaults": p_ctor_defaults, "helper_plumbing": p_helper_plumbing,
+         "addr_helper": p_addr_helper, "key_record": p_key_record, "results_survive": p_results_survive,
+         "raw_parse_stream": p_raw_parse_stream, "secure_secret_path_default": p_secure_secret_path_default,
+         "unhardened_child_path": p_unhardened_child_path,
+         "xkey_header": p_xkey_header, "xkey_header_derive": p_xkey_header_derive,
          "int_digit_limit": p_int_digit_limit, "norm_meaning": p_norm_meaning, "text_spellings": p_text_spellings,
          "secure_secret_path": p_secure_secret_path, "depth_overflow": p_depth_overflow,
          "blind_degenerate": p_blind_degenerate, "pub_reuse": p_pub_reuse, "priv_reuse": p_priv_reuse, "blind_history": p_blind_history,
@@ -1891,3 +2516,100 @@ def generate(ctx):
         s1, s2 = [ridx(r, False), ridx(r, False)], [ridx(r, False)]
         ctx.label("reuse/blind_xpub-history")
         yield ("prop", "blind_history", [rseed(r, ctx), rpath(r, 2), [s1, s2, s1, s1[:1] + s2, s2]])
+
+    # ---- entry points most callers bypass, optional arguments left out, results re-observed after later calls
+    ctx.label("bip39-memory-sentences-reproduced-by-the-reference-encoder", BIP39_SENTENCES_OK)
+    ents = [b"\x00" * 16, b"\xff" * 32, b"\x7f" * 16, b"\x80" * 24]
+    for i in range(ctx.n(8, 64)):
+        mode = [0, 1, 2, 3, 4, 5, 4 + 8, 2 + 8][i % 8]
+        ent = ents[i] if i < 4 else ctx.rbytes([16, 20, 24, 28, 32][i % 5])
+        idxs = rpath(r, 2) or [H31 + 44]
+        pw = [b"TREZOR", ctx.rbytes(1 + i % 7)][i % 2]
+        ctx.label("from_mnemonic/argument-mode-%d" % mode)
+        yield ("prop", "from_mnemonic", [ent, pw, idxs, r.randrange(4), 1 + i % 3, [-1, 1, 4][i % 3], mode])
+    for i in range(ctx.n(3, 12)):
+        ctx.label("generate/argument-mode-%d" % (i % 3))
+        yield ("prop", "generate", [ctx.rbytes(32), ctx.rbytes(4), r.randrange(1, 2 ** 64), 1 + i % 3, [2, -1][i % 2], i % 3])
+    for i in range(ctx.n(6, 24)):
+        ctx.label("from_shares/argument-mode-%d" % (i % 6))
+        yield ("prop", "from_shares", [ctx.rbytes(16), ctx.rbytes(1 + i % 5), ctx.rbytes(6), rpath(r, 2) or [H31], r.randrange(4),
+                                       1 + i % 3, i % 6])
+    for i in range(ctx.n(2, 12)):
+        ctx.label("from_seed/optional-arguments-one-by-one")
+        yield ("prop", "from_seed_defaults", [rseed(r, ctx), [1, 0, 2, 3][i % 4], i % 5])
+    yield ("corr", "from_seed", [ctx.rbytes(16), 1, [], ALL_PUB[7]])              # priv_version None, pub_version given
+    yield ("corr", "from_seed", [ctx.rbytes(16), 0, [], ALL_PUB[8]])
+    for i in range(ctx.n(2, 12)):
+        ctx.label("constructors-direct/optional-arguments-one-by-one")
+        yield ("prop", "ctor_defaults", [r.choice([1, N - 1, r.randrange(1, N)]) if i else r.randrange(1, N), ctx.rbytes(32), [3, 1, 2, 0][i % 4],
+                                         i % 5, [1, 255, 0, 7][i % 4], [_Z4, _F4, ctx.rbytes(4)][i % 3],
+                                         [H31, 0, 2 ** 32 - 1, 5][i % 4]])
+    for net in range(4):
+        for mode in range(5):
+            ctx.label("address-helpers/plumbing-argument-mode-%d" % mode)
+            yield ("prop", "helper_plumbing", [net, mode, [3, H31 - 1, r.randrange(1, H31)][(net + mode) % 3],
+                                               [7, 0, r.randrange(1, H31)][(net + 2 * mode) % 3] + (1 if mode else 0)])
+    for j in range(ctx.n(12, 80)):
+        w = j % 10
+        mode = [0, 3, 1, 2, 4][(j + j // 10) % 5]
+        ctx.label("address-helpers/end-to-end/%s/%s" % (_HELPERS[w][0], NETS[(j + j // 10) % 4]))
+        yield ("prop", "addr_helper", [rseed(r, ctx), (j + j // 10) % 4, w, mode, r.choice([1, 2, H31 - 1, r.randrange(1, H31)]),
+                                       r.choice([3, 19, H31 - 1, r.randrange(1, H31)])])
+    for j in range(ctx.n(4, 24)):
+        ctx.label("key-record/argument-mode-%d" % (j % 4))
+        idxs = [[48 + H31, H31, 5], [45 + H31], [0, 1], [H31 + 1, 2, H31 - 1 + H31]][j % 4] if j < 8 else (rpath(r, 4) or [0])
+        yield ("prop", "key_record", [rseed(r, ctx), [1, 0, 3, 2][j % 4] if j >= 4 or j != 1 else 0, [3, -1, 0][j % 3], idxs, j // 2, j % 4])
+    for j in range(ctx.n(2, 16)):
+        ctx.label("results-re-observed-after-later-calls-and-edits")
+        i1 = [0, H31 - 1][j] if j < 2 else r.randrange(0, H31)
+        yield ("prop", "results_survive", [rseed(r, ctx), j % 4, [2, -1][j % 2], rpath(r, 1), i1, r.choice([1, 2, r.randrange(1, H31 - 1)]),
+                                           ctx.rbytes(16)])
+    for j in range(ctx.n(5, 40)):
+        isp = 1 if j % 4 == 3 else 0
+        raws = []
+        for t in range(2):
+            k_ = r.randrange(1, N)
+            hdr = bytes([r.choice([0, 1, 255])]) + ctx.rbytes(4) + ridx(r).to_bytes(4, "big") + ctx.rbytes(32)
+            vi_ = 5 + (j + t) % 5 if (j + t) % 2 == 0 else (j + t) % 5
+            raws.append((R_PRV[vi_] + hdr + b"\x00" + k_.to_bytes(32, "big")) if isp else (R_PUB[vi_] + hdr + r_serP(r_point(k_))))
+        ctx.label("raw_parse/two-keys-in-one-stream")
+        yield ("prop", "raw_parse_stream", [raws[0], raws[1], isp, j % 5 - 1])
+    yield ("prop", "secure_secret_path_default", [[r.randrange(0, H31 - 1) for _ in range(6)]])
+    # exactly ONE component hardened, at every position (and exactly one NOT hardened): the marker of one component
+    # must not decide for the others
+    for ln in range(1, 6):
+        for pos in range(ln):
+            base = [r.randrange(0, 50) for _ in range(ln)]
+            one = [v + H31 if p_ == pos else v for p_, v in enumerate(base)]
+            allbut = [v if p_ == pos else v + H31 for p_, v in enumerate(base)]
+            ctx.label("path/one-component-hardened")
+            for idxs in (one, allbut):
+                yield ("prop", "text_spellings", [idxs])
+                t = i_path_text(r.choice([109, 77]), r.choice([39, 104, 72]), idxs)
+                yield ("corr", "path_indexes_priv", [t])
+                yield ("corr", "path_indexes_pub", [t])
+    for pos in range(3):
+        idxs = [v + H31 if p_ == pos else v for p_, v in enumerate([r.randrange(0, 50) for _ in range(3)])]
+        yield ("corr", "traverse_priv", [rprivargs(r, ctx), _path_text(idxs, pos)])
+        yield ("corr", "traverse_pub", [rpubargs(r, ctx), _path_text(idxs, pos + 1)])
+    # get_unhardened_child_path (psbt_helper reads it): component-aligned prefixes, hardened remainders, non-prefixes
+    ucp = [("m/48h/1h", "m/48h/1h/0/5"), ("m", "m/0/1"), ("m/1", "m/1"), ("M/48H/1h", "m/48'/1'/3"), ("m/1", "m/2/3"),
+           ("m/48h", "m/48h/1h/0"), ("m/1/2", "m/1"), ("m/4", "m/44h/0"), ("m/0'", "m/0h/7"), (" m/3", "m/3/4 ")]
+    for j in range(ctx.n(10, 200)):
+        whole = rpath(r, 6)
+        cut = r.randrange(0, len(whole) + 1)
+        tail_ = [v % H31 for v in whole[cut:]] if j % 3 else whole[cut:]
+        ucp.append((_path_text(whole[:cut], r.randrange(4)), _path_text(whole[:cut] + tail_, r.randrange(4))))
+    # string prefix that is no component prefix (was: 'm0/2' returned for m/1 and m/10/2; fixed in /repo)
+    ucp += [("m/1", "m/10/2"), ("m/48h/1", "m/48h/10/2"), ("m/4", "m/44/1"), ("M/1", "m/1h/2"), ("m/1/2", "m/1/23/4"),
+            ("m/4", "m/45/0/1"), ("m/48'", "m/48'0"), ("m/48'/0'", "m/48h/0h"), (" M/48H/1'/7 ", "\tm/48h/1H/7/0/1\n"),
+            ("m/48h/1h", "M/48H/1H/2H"), ("m/48h/1h", "m/48h/1h/2/3h"), ("m/2147483647", "m/2147483647/2147483647")]
+    for j in range(ctx.n(10, 200)):
+        pre = rpath(r, 3)
+        d_ = r.randrange(0, 200)
+        root_ = pre + [d_ * 10 ** r.randrange(1, 3) + r.randrange(0, 10)] + rpath(r, 2, hardened_ok=False)
+        ctx.label("unhardened-child-path/base-is-a-text-prefix-inside-a-component")
+        ucp.append((_path_text(pre + [d_], r.randrange(4)), _path_text(root_, r.randrange(4))))
+    for a_, b_ in ucp:
+        ctx.label("unhardened-child-path")
+        yield ("prop", "unhardened_child_path", [a_, b_])
